@@ -740,12 +740,13 @@ def plan(ctx):
     quick = ctx.tier == "quick"
     items = []
     if ctx.pid == "C07":
-        items += [("base", "vote", 3, False, 1), ("base", "vote", 3, True, 1), ("base", "vote", 5, True, 1),
+        items += [("base", "snapshot_late", 3, True, 1),
+                  ("base", "vote", 3, False, 1), ("base", "vote", 3, True, 1), ("base", "vote", 5, True, 1),
                   ("base", "replication", 3, True, 3 if quick else 1), ("base", "conflict", 3, False, 3 if quick else 1)]
         n_random, stride = ctx.scale(16, 400), 2
     else:
         items += [("base", "untrimmed", 2, True, 1), ("base", "replication", 3, True, 1), ("base", "snapshot", 3, True, 1),
-                  ("base", "members", 3, True, 1),
+                  ("base", "members", 3, True, 1), ("base", "snapshot_partial", 3, True, 1),
                   ("base", "conflict", 3, True, 1), ("base", "vote", 3, True, 1), ("base", "replication", 2, False, 2 if quick else 1),
                   ("base", "untrimmed", 3, False, 2 if quick else 1)]
         if not quick:
